@@ -245,6 +245,37 @@ CLAIMED.update({
     ),
 })
 
+CLAIMED.update({
+    "C01": (
+        "Coq/Coquelicot proofs for every n (induction, telescoping trigonometric sums, auto_derive) over index-function models with leaves re-translated from onedgrid.py each run + interval correspondence + mpmath moment oracle",
+        "54 theorems for every admissible n: trapezoid/midpoint/Simpson exactness (induction), discrete Chebyshev orthogonality at the Fejer-1/"
+        "Gauss-Chebyshev, Clenshaw-Curtis and Fejer-2 nodes, Clenshaw-Curtis exact to degree n-1 for the weights AS THE CODE COMPUTES THEM, "
+        "Fejer-1/Fejer-2 exact to the degrees that hold (`_partial`), `_refuted` at n=3 and a proof that the defect occurs at every odd n (Fejer-1) "
+        "/ every n (Fejer-2) plus proofs that the proposed fixes are exact for every n; Gauss-Chebyshev exactness unconditionally, Chebyshev-2 / "
+        "Laguerre / Legendre wrappers under oracle hypotheses; for every substitution rule weight = h x derivative of the (translated) node map, "
+        "positive weights, ascending nodes inside the declared domain; shape theorems for all closed-form rules.",
+        "Trusted: Coq kernel; stdlib real/classical/funext axioms; py2coq/real leaf translator + constructor-body translator (validated by "
+        "interval enclosures of every node and weight for n = 2..12 (quick) / up to 60 (thorough)); array-level constructors are hand models tied "
+        "at the sampled n; oracle hypotheses for leggauss / roots_chebyu / roots_genlaguerre validated each run by mpmath moments. PARTIAL: "
+        "monotonicity and end-point limit of the Trefethen strip map are numerical only.",
+        "DESIGN.md section 6 C01",
+    ),
+    "C15": (
+        "Coq/Coquelicot proofs (chain rule to order 3, Bell matrix, explicit form, solution transfer) over helper terms symbolically executed from ode.py each run + interval correspondence through a recording solver stub",
+        "33 theorems: for every thrice-differentiable transformation g and all coefficient values the generated coefficients of "
+        "_transform_ode_from_derivs satisfy sum a_k y^(k)(x) = sum b_j u^(j)(g x) for y = u o g (orders 1..3), the generated derivative "
+        "transformation matrix maps u-jets to y-jets and is invertible iff g' != 0, the explicit first-order form is equivalent to the ODE when "
+        "the leading coefficient is non-zero, and if the solver oracle's U solves the transformed problem then the returned callable satisfies "
+        "the stated ODE and the stated initial/boundary data in the original variable (IVP and BVP, orders 1..3), instantiated with C03's "
+        "regenerated Becke, Knowles and MultiExp transforms.",
+        "Trusted: Coq kernel; stdlib real/classical axioms; fail-closed symbolic interpreter for the helper bodies + pattern check of the "
+        "hand-modelled wiring (validated by interval enclosures through a recording stub of solve_ivp/solve_bvp); oracles: sympy.bell, "
+        "scipy.linalg.solve, solve_ivp/solve_bvp contract. PARTIAL: 'within the solver tolerance' and uniqueness are runtime numerics "
+        "(manufactured-solution sweep over all transform classes, IVP methods and BVPs).",
+        "DESIGN.md section 6 C15",
+    ),
+})
+
 NOT_YET = {
     # pid: reason (kept current; a property moves to CLAIMED once its check is green on the unchanged tree)
 }
